@@ -87,6 +87,11 @@ impl Clone for GroupExporterSecret {
     #[verifier::external_body]
     fn clone(&self) -> (r: Self) ensures r == *self { unimplemented!() }
 }
+impl PartialEq for SelfUpdateState { #[verifier::external_body] fn eq(&self, other: &Self) -> (r: bool) { unimplemented!() } }
+impl vstd::std_specs::cmp::PartialEqSpecImpl for SelfUpdateState {
+    open spec fn obeys_eq_spec() -> bool { true }
+    open spec fn eq_spec(&self, other: &Self) -> bool { *self == *other }
+}
 impl PartialEq for GroupState { #[verifier::external_body] fn eq(&self, other: &Self) -> (r: bool) { unimplemented!() } }
 impl vstd::std_specs::cmp::PartialEqSpecImpl for GroupState {
     open spec fn obeys_eq_spec() -> bool { true }
@@ -663,7 +668,7 @@ impl EpochSnapshotManager {
 
     #[verifier::external_body]
     pub fn rollback_to_epoch<S: MdkStorageProvider>(&self, storage: &S, group_id: &GroupId, target_epoch: u64, Tracked(w): Tracked<&mut World>) -> (r: Result<(), Error>)
-        requires old(w).is_better_result is Some && old(w).is_better_result->Some_0.0 == *group_id && old(w).is_better_result->Some_0.1 == target_epoch && old(w).is_better_result->Some_0.4, //@L[error_recovery.rollback_only_if_better|C01,C07|callsite-requires]
+        requires old(w).is_better_result is Some && old(w).is_better_result->Some_0.0 == *group_id && old(w).is_better_result->Some_0.1 == target_epoch && old(w).is_better_result->Some_0.4, //@L[error_recovery.rollback_only_if_better|C01,C06,C07|callsite-requires]
         ensures
             r is Ok ==> *final(w) == (World { rolled_back_to: Some(target_epoch), rollback_attempts: old(w).rollback_attempts.push((*group_id, target_epoch)),
                 groups: final(w).groups, relays: final(w).relays, exporter_secrets: final(w).exporter_secrets, mls: final(w).mls, snapshots: final(w).snapshots, ..*old(w) }),
